@@ -627,6 +627,14 @@ func cmdCheck(args []string) int {
 		if cfg.BudgetS == 0 {
 			cfg.BudgetS = 600
 		}
+		if v := os.Getenv("VERIF_BUDGET_CAP"); v != "" {
+			// bound finding: clamp every harness budget (a harness that does not finish is inconclusive)
+			var capS int
+			fmt.Sscan(v, &capS)
+			if capS > 0 && cfg.BudgetS > capS {
+				cfg.BudgetS = capS
+			}
+		}
 		hs := time.Now()
 		e := &Engine{cfg: cfg, prog: prog, fset: prog.Fset, harness: h, known: known,
 			reached: map[string]bool{}, funcs: map[string]bool{}, stubsUsed: map[string]bool{}}
